@@ -18,6 +18,7 @@ import ButlerModel.Driver.C19
 import ButlerModel.Driver.C20
 import ButlerModel.Driver.C05
 import ButlerModel.Driver.C06
+import ButlerModel.Driver.C17r
 /-! Line-protocol driver: one request per line on stdin, one reply per line on stdout.
 The first token selects the model; stateful models keep their state in `DState`. -/
 
@@ -33,6 +34,7 @@ structure DState where
   store : Store.S := {}
   crash : Driver.C08.St := {}
   xfer : Transfer.Repo := {}
+  rc : RegCache.S := {}
 
 def step (st : DState) (line : String) : DState × String :=
   let toks := (line.splitOn " ").filter (· ≠ "")
@@ -54,6 +56,7 @@ def step (st : DState) (line : String) : DState × String :=
   | "did" :: rest => let (c, out) := Driver.C13.handle st.did rest; ({ st with did := c }, out)
   | "reg" :: rest => let (c, out) := Driver.C02.handle st.reg rest; ({ st with reg := c }, out)
   | "path" :: rest => (st, Driver.C09.handlePath rest)
+  | "rc" :: rest => let (c, out) := Driver.C17r.handle st.rc rest; ({ st with rc := c }, out)
   | "xfer" :: rest => let (c, out) := Driver.C19.handle st.xfer rest; ({ st with xfer := c }, out)
   | "crash" :: rest => let (c, out) := Driver.C08.handle st.crash rest; ({ st with crash := c }, out)
   | "st" :: rest => let (c, out) := Driver.C01.handle st.store rest; ({ st with store := c }, out)
